@@ -68,3 +68,9 @@ package transport
 //@ func (*connHandshaker).Close
 //@   loop 2 ensures called_since("loop2:head", "Close") || isnil(item.c)
 //@   loop 2 ensures len(h.doneq) == len(at("loop2:head", h.doneq)) - 1
+//@
+//@ func NewConnPipe
+//@   ensures cast("*conn", result).c == c && cast("*conn", result).proto.Self == proto.Self && cast("*conn", result).proto.Peer == proto.Peer && cast("*conn", result).proto.SelfName == proto.SelfName && cast("*conn", result).proto.PeerName == proto.PeerName && !cast("*conn", result).open && !cast("*conn", result).closed && cast("*conn", result).maxrx == 0
+//@
+//@ func NewConnPipeIPC
+//@   ensures cast("*connipc", result).c == c && cast("*connipc", result).proto.Self == proto.Self && cast("*connipc", result).proto.Peer == proto.Peer && cast("*connipc", result).proto.SelfName == proto.SelfName && cast("*connipc", result).proto.PeerName == proto.PeerName && !cast("*connipc", result).open && !cast("*connipc", result).closed && cast("*connipc", result).maxrx == 0
